@@ -153,7 +153,9 @@ fn sc_explicit(ctx: &mut Ctx) {
     let asset_sel = ctx.choose_free(6);
     let cpb = *ctx.pick_free(&[4310u64, 1]);
     let order = ctx.choose_free(2); // 0: collateral first then balance, 1: balance first
-    ctx.observe(&(mask, helper, coin_sel, asset_sel, cpb, order));
+    // an earlier, successful use of a helper on the same builder (the fields are then set again)
+    let prior = ctx.choose_free(3);
+    ctx.observe(&(mask, helper, coin_sel, asset_sel, cpb, order, prior));
     let mut p = Params::mainnet();
     p.coins_per_byte = cpb;
     let mut tb = TransactionBuilder::new(&p.config());
@@ -177,6 +179,19 @@ fn sc_explicit(ctx: &mut Ctx) {
     // the return's min-ADA with the inputs' assets, for the boundary cases
     let probe = TransactionOutput::new(&change, &value_of(0, &[(0, ta), (1, tbq)]));
     let min_ret = guard(|| min_ada_for_output(&probe, &DataCost::new_coins_per_byte(&bn(cpb)))).ok().and_then(|r| r.ok()).map(|x| u(&x)).unwrap_or(1_000_000);
+    let mut prior_ok = false;
+    if prior == 1 {
+        prior_ok = matches!(guard(|| tb.set_total_collateral_and_return(&bn(tc.saturating_sub(min_ret).saturating_sub(5)), &change)), Ok(Ok(())));
+    } else if prior == 2 {
+        let ret = TransactionOutput::new(&enterprise_addr(2), &value_of(tc.saturating_sub(7), &[(0, ta), (1, tbq)]));
+        prior_ok = matches!(guard(|| tb.set_collateral_return_and_total(&ret)), Ok(Ok(())));
+    }
+    if prior != 0 && !prior_ok {
+        return;
+    }
+    if prior_ok {
+        ctx.hit("helper-used-twice");
+    }
     let what: String;
     let res: Result<Result<(), JsError>, crate::engine::PanicRec>;
     let hname: &str;
@@ -202,7 +217,7 @@ fn sc_explicit(ctx: &mut Ctx) {
             _ => vec![(1, tbq)],
         };
         let ret = TransactionOutput::new(&change, &value_of(coin, &assets));
-        what = format!("collateral {:?} (coin {}, A {}, B {}) ; set_collateral_return_and_total(return coin {} assets {:?}) ; cpb {} ; order {}", sel, tc, ta, tbq, coin, assets, cpb, order);
+        what = format!("collateral {:?} (coin {}, A {}, B {}) ; prior call {} ; set_collateral_return_and_total(return coin {} assets {:?}) ; cpb {} ; order {}", sel, tc, ta, tbq, prior, coin, assets, cpb, order);
         res = guard(|| tb.set_collateral_return_and_total(&ret));
     } else {
         hname = "set_total_collateral_and_return";
@@ -220,7 +235,7 @@ fn sc_explicit(ctx: &mut Ctx) {
         if asset_sel != 0 {
             return;
         }
-        what = format!("collateral {:?} (coin {}, A {}, B {}) ; set_total_collateral_and_return(total {}) ; cpb {} ; order {}", sel, tc, ta, tbq, total, cpb, order);
+        what = format!("collateral {:?} (coin {}, A {}, B {}) ; prior call {} ; set_total_collateral_and_return(total {}) ; cpb {} ; order {}", sel, tc, ta, tbq, prior, total, cpb, order);
         res = guard(|| tb.set_total_collateral_and_return(&bn(total), &change));
     }
     ctx.set_sample(|| what.clone());
@@ -238,7 +253,10 @@ fn sc_explicit(ctx: &mut Ctx) {
             }
             match fields(&tb) {
                 Ok(f) => {
-                    if f.ret.is_some() || f.total.is_some() {
+                    if prior_ok {
+                        // the earlier call's fields may stay; they must still satisfy the equation
+                        judge_fields(ctx, &f, cpb, "after-a-failed-second-call", &what);
+                    } else if f.ret.is_some() || f.total.is_some() {
                         ctx.violation(format!("{}/{}/failed-attempt-leaves-fields-set", P, hname), format!("return set: {} total: {:?} ; {}", f.ret.is_some(), f.total, what));
                     }
                 }
@@ -348,7 +366,7 @@ pub fn run(tier: Tier, seed: u64) -> i32 {
     rep.rule = "collateral input sets of size 1..3 (thorough 1..5) over 5 candidates (ADA at three widths, ADA+A, ADA+A+B) x {set_collateral_return_and_total with 9 return coins around min-ADA / the input total x 6 asset choices (exact, fewer, more, different, none, partial); set_total_collateral_and_return with 9 totals} x coins_per_byte {4310, 1} x both orders of setting collateral and balancing; percentage helper: collateral sets (incl. none) x 7 percentages x 4 output sizes (one beyond everything offered, so that the helper fails while balancing) x 2 strategies. distinct = distinct argument tuples".into();
     rep.assume("the raw pass-through setters set_collateral_return / set_total_collateral validate nothing by design and are not entry points of this property");
     rep.trusted_base = vec!["notes/ledger_rules.md §7".into(), "refcbor".into()];
-    rep.required_hits = vec!["ok:return_and_total", "ok:total_and_return", "ok:percentage-helper", "equation-holds", "asset-carrying-collateral", "err:assets-left-in-total", "err:return-below-min-ada", "err:total-exceeds-inputs", "percentage-helper-err", "percentage-helper-err-in-balancing", "pct-with-remainder"];
+    rep.required_hits = vec!["ok:return_and_total", "ok:total_and_return", "ok:percentage-helper", "equation-holds", "asset-carrying-collateral", "err:assets-left-in-total", "err:return-below-min-ada", "err:total-exceeds-inputs", "helper-used-twice", "percentage-helper-err", "percentage-helper-err-in-balancing", "pct-with-remainder"];
     for name in ["explicit", "percentage"] {
         let f = scenario(name, tier).unwrap();
         let st = explore(name, &*f, &Opts::new(seed));
